@@ -123,13 +123,13 @@ PROPS = {
                 rule="a step is non-trivial for C01 when it is a packet reception; distinct = distinct (abstract pre-state, abstract input)"),
     "C02": dict(families=["FUNDS", "FEESBIG"], groups=["bal", "supply"], level="model_checking",
                 rule="non-trivial = a successful orbiter transfer (success acknowledgement); distinct = distinct (abstract pre-state, abstract input)"),
-    "C11": dict(families=["DUST", "FUNDS"], groups=["ack", "bal", "stats"], level="model_checking",
+    "C11": dict(families=["DUST", "FUNDS"], groups=["ack", "bal", "stats", "xfers"], level="model_checking",
                 rule="non-trivial = an orbiter packet received while the orbiter account holds coins, with the paired control run on the emptied account executed; distinct = distinct (pre-state, input)"),
     "C12": dict(families=["FUNDS", "STATS", "ORDER"], groups=["stats"], level="model_checking",
                 rule="non-trivial = a successful orbiter transfer (statistics must change by exactly that transfer); all other steps are checked for 'unchanged'; distinct = distinct (pre-state, input)"),
-    "C03": dict(families=["FAULT", "FUNDS"], groups=["ack", "fired"], level="fault_enumeration", exhaustive=True,
+    "C03": dict(families=["FAULT", "FUNDS"], groups=["ack", "fired", "xfers", "events"], level="fault_enumeration", exhaustive=True,
                 rule="FAULT: every (payload shape x armed fault set x clean/dusty state) is one execution with fault wrappers around the real dependencies; FUNDS: naturally occurring failures; non-trivial = a reception in which an armed fault actually fired or the transfer was refused; distinct = distinct (pre-state, input incl. fault set)"),
-    "C06": dict(families=["ORDER"], groups=["ack", "actions", "req"], level="model_checking",
+    "C06": dict(families=["ORDER"], groups=["ack", "actions", "req", "xfers", "events"], level="model_checking",
                 rule="non-trivial = a packet whose payload carries actions (executed with recording decorators around the fee controller and the swap test controller) or repeats an action id; distinct = distinct (pre-state, input)"),
     "C14": dict(families=["PARSE", "FUNDS", "BIGSEQ"], groups=["ack"], level="exploration",
                 rule="TLC enumerates the finite grid templates x JSON paths x mutations completely; unstructured classes (random bytes as packet data, random memo bytes, random JSON under the real field names, extreme amounts/denoms/attribute values) are seeded-random representatives; each is one packet through the full app under recover(); non-trivial = every such packet; distinct = distinct abstract input"),
@@ -288,7 +288,7 @@ def attribute(prop, recs, evs, behs_by_id, wd, specdir, report, tier="quick"):
     other = {}
     for r in recs:
         for c in r["viol"]:
-            if c not in pids:
+            if c not in pids and not any(matches(e, c, evs[r["k"] - 1]) for e in known):
                 other[c] = other.get(c, 0) + 1
     if other:
         log("note: other properties violated on observed steps of this run (decided by their own checks): %s" % other)
